@@ -466,7 +466,8 @@ def gen_scenario(rng, thorough, kind=None):
     for n in chosen:
         true = M["true"][n] if n in M["true"] else M["x0"][M["states"].index(n)]
         pars.append(gen_prior(rng, n, true, thorough))
-    obs = ["I", "R"] if rng.random() < 0.7 else ["R"]
+    r_obs = rng.random()
+    obs = ["I", "R"] if r_obs < 0.45 else (["R", "I"] if r_obs < 0.7 else ["R"])      # (also named out of model order)
     sc = dict(model=model, tmax=float(rng.choice([30.0, 40.0, 60.0])), nobs=int(rng.integers(6, 13)), obs=obs,
               loss="SquareLoss" if (not thorough or rng.random() < 0.7) else "NormalLoss",
               pars=pars, constraint=constraint, seed=int(rng.integers(1, 2 ** 31 - 1)), calls=[])
@@ -680,6 +681,10 @@ CORPUS = [
          calls=[dict(kind="get", N=12, tol="inf", G=2, q=0.5)]),
     # per-state weights on the squared residuals
     dict(model="SIR", tmax=40.0, nobs=8, obs=["I", "R"], loss="SquareLoss", weights=[0.5, 2.0], constraint=None, seed=577, kind="corpus",
+         pars=[dict(name="beta", dist="unif", args=[0.3, 0.8], log=False), dict(name="gamma", dist="unif", args=[0.2, 0.5], log=False)],
+         calls=[dict(kind="get", N=12, tol="inf", G=2, q=0.5)]),
+    # observed states named out of model order (data column j belongs to the j-th NAMED state), with per-state weights
+    dict(model="SIR", tmax=40.0, nobs=8, obs=["R", "I"], loss="SquareLoss", weights=[0.5, 2.0], constraint=None, seed=9001, kind="corpus",
          pars=[dict(name="beta", dist="unif", args=[0.3, 0.8], log=False), dict(name="gamma", dist="unif", args=[0.2, 0.5], log=False)],
          calls=[dict(kind="get", N=12, tol="inf", G=2, q=0.5)]),
     # a normal likelihood whose standard deviation is not 1 (variance and standard deviation differ)
